@@ -71,13 +71,14 @@ def check_resolve_order(rep: Report, prog: Program) -> None:
               "prefix+symbol split, name, KeyError", fi.where())
 
 
-def symbol_table(rep: Report, ev: Evaluator, sym: "re.Pattern[str]", thorough: bool) -> None:
+def symbol_table(rep: Report, ev: Evaluator, sym: "re.Pattern[str]", thorough: bool, rid1: str = "R13.1", rid2: str = "R13.2",
+                 consequence: str = "rendering and parsing back changes the physical value") -> None:
     # R13.1
     for s, u in sorted(ev.unit_by_symbol.items()):
-        rep.check("R13.1", f"unit-symbol:{s}", bool(sym.fullmatch(s)), f"unit symbol {s!r} ({u.name}) does not match the SYMBOL terminal "
+        rep.check(rid1, f"unit-symbol:{s}", bool(sym.fullmatch(s)), f"unit symbol {s!r} ({u.name}) does not match the SYMBOL terminal "
                   "of the grammar: str() of the unit cannot be parsed", u.where)
     for s, p in sorted(ev.prefix_by_symbol.items()):
-        rep.check("R13.1", f"prefix-symbol:{s}", bool(sym.fullmatch(s)), f"prefix symbol {s!r} does not match the SYMBOL terminal", p.where)
+        rep.check(rid1, f"prefix-symbol:{s}", bool(sym.fullmatch(s)), f"prefix symbol {s!r} does not match the SYMBOL terminal", p.where)
     # R13.2: every prefix x unit spelling resolves to itself or to an equal-valued unit
     base_syms = {s: u for s, u in ev.unit_by_symbol.items()}
     n = 0
@@ -101,25 +102,25 @@ def symbol_table(rep: Report, ev: Evaluator, sym: "re.Pattern[str]", thorough: b
                            + ("a unit of a different dimension or size" if sv is False else "whose size relative to it is not determined"))
             if ok:
                 if n <= 6:
-                    rep.ok("R13.2", f"{p.name}+{u.name}")
+                    rep.ok(rid2, f"{p.name}+{u.name}")
                 else:
-                    r = rep.rules["R13.2"]
+                    r = rep.rules[rid2]
                     r.instances += 1
                     r.discharged += 1
             else:
-                rep.fail("R13.2", f"symbol:{text}={p.name}*{u.name}",
-                         f"str({p.name} * {u.name}) is {text!r}, which {why}: rendering and parsing back changes the physical value",
+                rep.fail(rid2, f"symbol:{text}={p.name}*{u.name}",
+                         f"str({p.name} * {u.name}) is {text!r}, which {why}: {consequence}",
                          u.where)
     # names that lex as one SYMBOL must resolve to their own unit
     for nm, u in sorted(ev.unit_by_name.items()):
         if not sym.fullmatch(nm):
-            rep.inventory("R13.2", {"name_not_spellable_in_the_grammar": nm})
+            rep.inventory(rid2, {"name_not_spellable_in_the_grammar": nm})
             continue
         how, ru, rp = resolve(ev, nm)
         ok = ru is u and rp is None
         if not ok and ru is not None:
             ok = same_value(ev, None, u, rp, ru) is True
-        rep.check("R13.2", f"name:{nm}", ok, f"the registered name {nm!r} is shadowed: it resolves ({how}) to "
+        rep.check(rid2, f"name:{nm}", ok, f"the registered name {nm!r} is shadowed: it resolves ({how}) to "
                   f"{(rp.name + '-') if rp else ''}{ru.name if ru else None}", u.where)
     # prefixes share no symbol (the table keeps one)
     seen: Dict[str, str] = {}
@@ -127,7 +128,7 @@ def symbol_table(rep: Report, ev: Evaluator, sym: "re.Pattern[str]", thorough: b
         if symbol and p is not None:
             ident = f"{p.base}**{p.exponent}"
             if symbol in seen and seen[symbol] != ident:
-                rep.fail("R13.2", f"prefix-symbol-shared:{symbol}", f"prefix symbol {symbol!r} is declared for {seen[symbol]} and {ident}", where)
+                rep.fail(rid2, f"prefix-symbol-shared:{symbol}", f"prefix symbol {symbol!r} is declared for {seen[symbol]} and {ident}", where)
             seen.setdefault(symbol, ident)
 
 
